@@ -28,6 +28,7 @@ CLAIMS = {
          "Coq proof (byte-level lemmas, induction) + model/implementation correspondence"),
 }
 
+WH = (" Lifted to every call of every in-contract history from construction (Proofs/Histories.v: at_every_call, every_processing_step_of_every_history). ")
 MACH = ("Correspondence: generated scripts (callback table + API history) run on real FSM::Instance objects built from /repo's working tree (both header variants) "
         "and on the extracted model, traces compared under the property's projection; the property's monitor over the implementation's trace finds the failing history.")
 CLAIMS.update({
@@ -35,25 +36,25 @@ CLAIMS.update({
          "activation mode, head/no head: between calls the machine is inactive or has exactly one active state, and the trace is a chain of lifecycle shapes (quiet stretch with consistent views, then at most one of "
          "exit;enter | reenter | root enter;enter | exit;root exit, every recipient exactly once) - run_life. " + MACH, "Coq proof (invariant + trace shape by induction over the API history) + model/implementation correspondence"),
  "C02": ("proof", "7.2", "Coq: exact description of processRequest: the rounds of the substitution loop (ghost-instrumented, proved equal to the loop), last survivor wins, exit(old);enter(new) or reenter, nothing if no survivor; "
-         "requests are lazy (API and control), later replaces earlier, update/react process exactly once at the end. " + MACH, "Coq proof (function-level exact specification of request processing) + model/implementation correspondence"),
+         "requests are lazy (API and control), later replaces earlier, update/react process exactly once at the end." + WH + MACH, "Coq proof (function-level exact specification of request processing) + model/implementation correspondence"),
  "C03": ("proof", "7.3", "Coq: guard rounds: exit guard then entry guard with short circuit, views carry pending/current, cancelled iff a cancel action occurred, next round's pending is the request written inside the guards, "
-         "cancelled destinations are never entered, fallback to the last survivor, no lifecycle callback between guards, replay/load consult no guards. " + MACH, "Coq proof (inductive shape of the guard rounds) + model/implementation correspondence"),
+         "cancelled destinations are never entered, fallback to the last survivor, no lifecycle callback between guards, replay/load consult no guards." + WH + MACH, "Coq proof (inductive shape of the guard rounds) + model/implementation correspondence"),
  "C04": ("proof", "7.4", "Coq: at most SUBSTITUTION_LIMIT rounds per processing step for every guard behaviour; the left-over request is untouched and only exists when the limit was used up; the state reached is the last survivor's; "
-         "activation ends with one active state. (Bound on activation's redirection rounds is by the fuel of initial_loop; not separately stated as a count.) " + MACH, "Coq proof (fuel-bounded loop, ghost round count) + model/implementation correspondence"),
+         "activation ends with one active state. Activation: one evaluation of the initial entry guards plus at most SUBSTITUTION_LIMIT redirection rounds (Proofs/ActivationRounds.v)." + WH + MACH, "Coq proof (fuel-bounded loop, ghost round count) + model/implementation correspondence"),
  "C05": ("proof", "7.5", "Coq: update()/react() deliver exactly pre(root) pre(a) upd(root) upd(a) post(a) post(root), every recipient once, only root and the state active at the start, all before any guard/enter/exit of the call; "
-         "query delivers query(root) query(a) and leaves the core unchanged. Object identity of the event is a token in the model. " + MACH, "Coq proof (exact delivery sequences) + model/implementation correspondence (event address compared in the harness)"),
+         "query delivers query(root) query(a) and leaves the core unchanged; for every cycle and query of every history (every_cycle_of_every_history). Object identity of the event is a token in the model. " + MACH, "Coq proof (exact delivery sequences) + model/implementation correspondence (event address compared in the harness)"),
  "C06": ("proof", "7.6", "Coq: every callback view: stateId = the state's id (255 for root), isActive(k) = (k = active) for every k and every control flavour and equal to the instance's own answer, request() = outstanding request, "
-         "guards see pending/current, a request through a control records the caller as origin. Context identity is a token in the model. " + MACH, "Coq proof (view specification of every delivery) + model/implementation correspondence (context address compared in the harness)"),
+         "guards see pending/current, a request through a control records the caller as origin; every callback of every history sees its own id and an isActive table naming at most one state (every_view_of_every_history). Context identity is a token in the model. " + MACH, "Coq proof (view specification of every delivery) + model/implementation correspondence (context address compared in the harness)"),
  "C07": ("proof", "7.7", "Coq (parametric in the payload type): transitions travel as whole records request -> pending -> current -> previous; any predicate true of all supplied payloads is true of every payload shown; "
          "payload-free requests expose none; plan tasks issue their own payload. Byte-level copying/alignment is exercised by the harness (six payload types), not proved. " + MACH, "Coq proof (parametricity + whole-record movement) + model/implementation correspondence over six payload types"),
  "C08": ("proof", "7.8", "Coq: the C++ plan scan (iterator with cached next over the index-linked plan) implements the abstract firing rule fire_scan: only tasks of the active origin with outstanding success fire, never past a task of another origin, "
-         "fired tasks are removed, others keep their order, success is consumed, head fires. " + MACH, "Coq proof (refinement of the plan scan to an abstract list rule) + model/implementation correspondence"),
- "C09": ("proof", "7.9", "Coq: case analysis of the plan step: idle / planFailed / planSucceeded / tasks fire, never two, plan empty and reports clear afterwards, failure of the active state is delivered, planExists only by append. "
+         "fired tasks are removed, others keep their order, success is consumed, head fires; the hypotheses of these statements hold at the plan step of every cycle of every history (Proofs/StatusBits.v). " + MACH, "Coq proof (refinement of the plan scan to an abstract list rule) + model/implementation correspondence"),
+ "C09": ("proof", "7.9", "Coq: case analysis of the plan step: idle / planFailed / planSucceeded / tasks fire, never two, plan empty and reports clear afterwards, failure of the active state is delivered (in every cycle of every history: failure_delivered_in_every_history), planExists only by append. "
          "'Any prior memory contents' is covered by the fill patterns of the correspondence (C17). " + MACH, "Coq proof (exhaustive case specification of deepUpdatePlans/updatePlan) + model/implementation correspondence under memory fill patterns"),
  "C11": ("proof", "7.11", "Coq: previousTransition() = the survivor after every processing step, names the active state when set; replayTransition/replayEnter apply without guards; replayTransition(INVALID) = identity, false; "
-         "a replica fed with the authority's destinations stays in sync for arbitrary replica callbacks. " + MACH, "Coq proof (two-instance simulation step) + model/implementation correspondence"),
+         "a replica fed with the authority's destinations stays in sync for arbitrary replica callbacks - one step (replica_in_sync) and over whole histories of the authority (replica_follows_every_history: same active state after every call, no guard on the replica). " + MACH, "Coq proof (two-instance simulation step) + model/implementation correspondence"),
  "C12": ("proof", "7.12", "Coq: save is pure, exactly ceil(SERIAL_BITS/8) bytes, canonical (equal buffers iff equal activity) for every n in 1..255; load(save(c)) into any loader state yields the saver's activity by exactly the needed "
-         "lifecycle change and no guard, built on the bit-stream round trip of C13. " + MACH, "Coq proof (bit-level round trip + lifecycle shape of load) + model/implementation correspondence on saver x loader pairs"),
+         "lifecycle change and no guard, built on the bit-stream round trip of C13; between any two in-contract histories of saver and loader (load_roundtrip_between_histories). " + MACH, "Coq proof (bit-level round trip + lifecycle shape of load) + model/implementation correspondence on saver x loader pairs"),
  "C16": ("proof", "7.16", "Coq: strip (detach logger, erase records) commutes with every model function and every API history, across log modes: callbacks, actions, results and final core are independent of the logger; "
          "method record first in its delivery, one record per permitted change/cancel/succeed/fail. " + MACH, "Coq proof (strip-commutation / non-interference over all histories) + model/implementation correspondence with logging off/on/verbose"),
 })
@@ -64,7 +65,7 @@ CLAIMS.update({
          "instances are independent; a copy behaves like the original. Correspondence: scripts with copies at random points compared with the model, the copy-equals-original monitor, and every script re-run over six memory fill "
          "patterns with the implementation's traces compared among themselves.", "Coq proof over facts regenerated from the source + model/implementation correspondence + fill-pattern differential runs"),
  "C18": ("other", "7.18", "Coq: index safety - every container operation has a checked twin that fails on the first out-of-range index, proved equal to the model's operation and proved to succeed under the container's invariant "
-         "(task list, plan links and iterators, bit arrays, bit stream incl. cursor no-wrap, arrays, per-state report bits). Instrumented execution for what the model cannot express: ASan+UBSan builds of the correspondence scripts "
+         "(task list, plan links and iterators, bit arrays, bit stream incl. cursor no-wrap, arrays, per-state report bits); in every state reached by an in-contract history both report bit arrays are well formed, so every report-bit access below n is in range (reachable_status_bits). Instrumented execution for what the model cannot express: ASan+UBSan builds of the correspondence scripts "
          "(capacity-full plans, payload alignments 1/4/8/16, n = 1..255 in thorough), undefined-symbol scan of an object instantiating the whole API, operator new/delete and mallinfo2 counters.",
          "Coq proof of index safety + sanitizer-instrumented runs + symbol / allocation-counter inspection"),
  "C19": ("other", "7.19", "Coq: non-interference - for every history that uses none of plans / serialization / transition history and every two settings of those switches and of the log mode and logger, the runs agree on callbacks, "
